@@ -88,7 +88,8 @@ char *stripbrackets(char *string) {
   char *ptr = string, *buffer = string;
   size_t length = strlen(string) - 1;
   if (*string == '[' && string[length] == ']') {
-    while (*(++string) != ']') { *buffer++ = *string; }
+    /* remove the outer pair only: the name itself may contain a ']' */
+    while (++string < ptr + length) { *buffer++ = *string; }
     *buffer = 0;
   }
   return ptr;
